@@ -1659,6 +1659,12 @@ def run(tier):
                 samples.append(reader_line(c) + '  ->  ' + ' '.join(trace)[:300])
             if c['machine'] in 'CBD' and c['machine'] not in xsamples and len(c['ops']) > 3:
                 xsamples[c['machine']] = case_line(c) + '  ->  ' + ' '.join(trace)[:300]
+        # the conversion route to a writer (Converter / conversion_utility): same existence clause, target built from directory + name
+        conv_fails, conv_n = c19x.converter_existence(scratch)
+        for f_ in conv_fails:
+            f_['hist_keys'] = ['']
+        fails.extend(conv_fails)
+        conv_cases = conv_n
     finally:
         shutil.rmtree(scratch, ignore_errors=True)
         gc.collect()
@@ -1668,7 +1674,8 @@ def run(tier):
     for f in fails:
         by_key.setdefault(f['key'], []).append(f)
     chk.coverage.update({
-        'evaluations': len(cases),
+        'evaluations': len(cases) + conv_cases,
+        'converter_existence_cases': conv_cases,
         'distinct_nontrivial': len(classes),
         'rule': 'random op histories (length <= 12; read / write-chunk / flush / close / context exit with and without '
                 'exception / del+gc) over: random segment trees (array, memmap, file-read, HDF5 leaves sharing caller file objects; '
